@@ -802,7 +802,7 @@ DENSE = {
 
 
 def c11_make_mix(rng, tier, i):
-    shape = [(4,), (3, 3), (2, 3, 2)][int(rng.integers(0, 3))]
+    shape = [(4,), (3, 3), (2, 3, 2), (), (1,), (1, 1)][int(rng.integers(0, 6))]
     k = int(rng.integers(0, 5))
     m = int(rng.integers(0, 5))
     if k + m == 0:
@@ -921,9 +921,16 @@ def c11_mix_case(res, case, tier):
         warnings.simplefilter("ignore")
         PROBES.acc.clear()
         try:
-            got = make_vjp(lambda t: f(anp, t), x)[0](1.0)
+            f(onp, x)
         except Exception as e:
-            return _nj(res, "raised:" + type(e).__name__)
+            return _nj(res, "numpy_raised:" + type(e).__name__)
+        try:
+            got = make_vjp(lambda t: f(anp, t), x)[0](1.0)
+        except NotImplementedError:
+            return _nj(res, "raised:NotImplementedError")
+        except Exception as e:
+            # the program runs on plain NumPy: a failure while accumulating is a violation, not a skip
+            return _viol(res, sig, "exception:" + type(e).__name__, case, traceback.format_exc()[-500:])
         for k, n in PROBES.acc.items():
             _cnt(res, "acc:" + k, n)
         PROBES.acc.clear()
